@@ -188,6 +188,15 @@ def build_cf1d(r: dict) -> Built:
         lon_attrs['bounds'] = lonname + '_bnds'
         if bounds == 'contig':
             latb, lonb = _mid_bounds(lat), _mid_bounds(lon)
+        elif bounds == 'overlap':
+            # every cell reaches three quarters of the minimum gap to either side: neighbouring cells overlap
+            # (valid CF; a point on a cell's edge then lies inside its neighbour)
+            def widen(vals):
+                vals = [F(v) for v in vals]
+                gap = min(abs(b - a) for a, b in zip(vals, vals[1:]))
+                s = 1 if vals[1] > vals[0] else -1
+                return [(v - s * gap * 3 / 4, v + s * gap * 3 / 4) for v in vals]
+            latb, lonb = widen(lat), widen(lon)
         else:  # 'gaps': each cell shrunk by a quarter of the minimum gap on both sides
             def shrink(vals):
                 vals = [F(v) for v in vals]
@@ -198,8 +207,20 @@ def build_cf1d(r: dict) -> Built:
     else:
         latb, lonb = _mid_bounds(lat), _mid_bounds(lon)
     ds = xr.Dataset(attrs=dict(r.get('attrs', {'Conventions': 'CF-1.4'})))
-    lat_da = xr.DataArray(np.array(lat, dtype='f8'), dims=[ydim], attrs=lat_attrs)
-    lon_da = xr.DataArray(np.array(lon, dtype='f8'), dims=[xdim], attrs=lon_attrs)
+
+    # storage type of each axis (coordinate and its stored bounds alike): 'f8' unless the recipe says otherwise;
+    # an integer or float32 type is used only when every value it has to hold is exact in it
+    def _axis_dtype(want, vals, bnds):
+        allv = [F(v) for v in vals] + ([F(x) for ab in bnds for x in ab] if bounds != 'none' else [])
+        if want in ('i4', 'i2', 'i8') and all(v.denominator == 1 for v in allv):
+            return want
+        if want == 'f4' and all(F(float(np.float32(float(v)))) == v for v in allv):
+            return want
+        return 'f8'
+    lat_dtype = _axis_dtype(r.get('lat_dtype', 'f8'), lat, latb)
+    lon_dtype = _axis_dtype(r.get('lon_dtype', 'f8'), lon, lonb)
+    lat_da = xr.DataArray(np.array([float(v) for v in lat]).astype(lat_dtype), dims=[ydim], attrs=lat_attrs)
+    lon_da = xr.DataArray(np.array([float(v) for v in lon]).astype(lon_dtype), dims=[xdim], attrs=lon_attrs)
     def _put_lat(ds):
         if coords_as == 'coords' or latname == ydim:
             return ds.assign_coords({latname: lat_da})
@@ -218,8 +239,8 @@ def build_cf1d(r: dict) -> Built:
     else:
         ds = _put_lon(_put_lat(ds))
     if bounds != 'none':
-        lb = xr.DataArray(np.array([[float(a), float(b)] for a, b in latb]), dims=[ydim, 'nv'])
-        xb = xr.DataArray(np.array([[float(a), float(b)] for a, b in lonb]), dims=[xdim, 'nv'])
+        lb = xr.DataArray(np.array([[float(a), float(b)] for a, b in latb]).astype(lat_dtype), dims=[ydim, 'nv'])
+        xb = xr.DataArray(np.array([[float(a), float(b)] for a, b in lonb]).astype(lon_dtype), dims=[xdim, 'nv'])
         if r.get('neg_zero'):
             # the same number spelt two ways: a cell's second bound that is zero is stored as -0.0, its
             # neighbour's first bound as 0.0 (what mirroring northern bounds to the south produces)
